@@ -43,6 +43,7 @@ class Sim:
         self.interrupter = Interrupter(src_prefix)
         self.peer_fired = False
         self.tainted = set()  # steps whose object met a transient peer fault
+        self.peer_steps = set()  # steps at which a peer fault was actually delivered
         self.step_no = 0
         self.epoch = 0  # incremented at restart
         self.user = {}  # profile-private state (must be picklable for restarts)
@@ -198,6 +199,7 @@ class Sim:
         if self.peer_fired:
             self.fired("F2.peer_exception")
             self.tainted.add(i)
+            self.peer_steps.add(i)
             for a in op.get("a", []) + [op["t"]]:
                 if isinstance(a, dict) and "ref" in a:
                     self.tainted.add(a["ref"])
@@ -259,6 +261,7 @@ class Sim:
             "faults_fired": self.faults_fired,
             "oracle_checks": self.oracle_checks,
             "tainted": sorted(self.tainted),
+            "peer_fired": sorted(self.peer_steps),
             "digest": digest([self.ops, self.log, [v["oracle"] for v in self.violations]]),
             "cfg": self.cfg,
             "states": [self.user["state"]] if "state" in self.user else [],
